@@ -143,6 +143,18 @@ func main() {
 			}
 		}
 		fmt.Println("obligations", len(s.Obs), time.Since(t0))
+	case "t":
+		rules.T12(rc)
+		rules.T4(rc)
+		rules.T6(rc)
+		for _, o := range s.Obs {
+			fmt.Println(o.V, o.Rule, o.Key, o.Detail)
+		}
+	case "k1w":
+		rules.K1w(rc, nil, 0)
+		for _, o := range s.Obs {
+			fmt.Println(o.V, o.Rule, o.Key, o.Detail)
+		}
 	case "l0":
 		rules.L0(rc, nil)
 		for _, o := range s.Obs {
